@@ -156,11 +156,26 @@ def run(prog, rep):
     ctors = [g for g in prog.funcs.values() if g.sym['kind'] == 'ctor' and g.cls in (NS + 'CsvWriteRootScope', NS + 'CsvReadRootScope')]
     if len(ctors) != 4:
         raise AnalysisBroken('anchor: expected 4 CSV root-scope constructors, found %d' % len(ctors))
+    # a validating function: a repo function of the CSV sources whose call closure mentions the table of allowed separators and throws
+    def is_validator(h, depth=0, seen=None):
+        seen = seen if seen is not None else set()
+        if h is None or h.body is None or h.id in seen or depth > 2:
+            return (False, False)
+        seen.add(h.id)
+        tbl = any(x['k'] in ('DeclRefExpr', 'MemberExpr') and 'allowed_separators' in (x.get('q') or x.get('n') or x.get('m') or '') for x in h.walk())
+        thr = any(x['k'] == 'CXXThrowExpr' for x in h.walk())
+        for x in h.walk():
+            if x['k'] == 'CallExpr':
+                c = h.callee(x) or {}
+                if c.get('repo') and c.get('id') in prog.funcs and prog.funcs[c['id']].relfile.startswith('src/csv/'):
+                    t2, r2 = is_validator(prog.funcs[c['id']], depth + 1, seen)
+                    tbl, thr = tbl or t2, thr or r2
+        return (tbl, thr)
     for g in sorted(ctors, key=lambda x: x.id):
         rep.touch(g)
         order = []
         for n in g.walk():
-            if n['k'] == 'CallExpr' and (g.callee(n) or {}).get('n') == 'ValidateSeparator':
+            if n['k'] == 'CallExpr' and (g.callee(n) or {}).get('repo') and all(is_validator(prog.funcs.get((g.callee(n) or {}).get('id')))):
                 order.append('validate')
             if n['k'] == 'CallExpr' and (g.callee(n) or {}).get('n') == 'make_unique':
                 order.append('construct')
@@ -596,6 +611,27 @@ def check_unescape(prog, rep):
                 rep.ok('R9.5', site, sample={'reader': cls, 'cell_length': nm, 'outcomes': {str(k): sorted(v) for k, v in res.items()}})
 
 
+
+def stream_reader_roles(prog, rule):
+    """(cursor member, buffer member) of CCsvStreamReader, read off IsEnd(): whatever its spelling, it compares a data member (the parse
+    cursor) with <buffer member>.size()"""
+    ie = [g for g in prog.funcs.values() if g.q == NS + 'CCsvStreamReader::IsEnd' and g.body is not None]
+    if ie:
+        f = ie[0]
+        for x in f.walk():
+            if x['k'] == 'BinaryOperator' and x.get('op') in ('>=', '==', '<', '>', '<=', '!='):
+                for a, b in ((x['c'][0], x['c'][1]), (x['c'][1], x['c'][0])):
+                    sa = strip(a)
+                    if sa is None or sa['k'] != 'MemberExpr' or sa.get('dk') != 'Field':
+                        continue
+                    for y in f.walk(b):
+                        if y['k'] == 'CXXMemberCallExpr' and (f.callee(y) or {}).get('n') in ('size', 'length'):
+                            me = strip(y['c'][0], casts=False)
+                            o = strip(me['c'][0]) if me.get('c') else None
+                            if o is not None and o['k'] == 'MemberExpr' and o.get('dk') == 'Field':
+                                return sa['m'], o['m']
+    raise AnalysisBroken(rule + ': CCsvStreamReader::IsEnd() no longer compares the parse cursor with the size of the decoded buffer')
+
 # ---------------------------------------------------------------------------------------- R9.6 end-of-input look-ahead is fresh
 def check_lookahead_fresh(prog, rep, rule='R9.6'):
     """CCsvStreamReader::IsEnd() is 'buffer fully parsed && decoder at end'. It is only meaningful when a refill was attempted after the
@@ -610,18 +646,7 @@ def check_lookahead_fresh(prog, rep, rule='R9.6'):
     rep.touch(f)
     cfg = CFG(f)
 
-    # roles from IsEnd(): "<cursor> >= <buffer>.size() && <decoder>.IsEnd()"
-    ie = [g for g in prog.funcs.values() if g.q == NS + 'CCsvStreamReader::IsEnd' and g.body is not None]
-    CUR = BUF = None
-    if ie:
-        for x in ie[0].walk():
-            if x['k'] == 'BinaryOperator' and x.get('op') in ('>=', '=='):
-                ms = [m.get('m') for m in ie[0].walk(x) if m['k'] == 'MemberExpr' and m.get('dk') == 'Field']
-                if len(ms) >= 2:
-                    CUR, BUF = ms[0], ms[1]
-                    break
-    if CUR is None:
-        raise AnalysisBroken(rule + ': CCsvStreamReader::IsEnd() is no longer "cursor >= buffer.size() && decoder at end"')
+    CUR, BUF = stream_reader_roles(prog, rule)
 
     def mentions(n, member):
         member = {'mCurrentPos': CUR, 'mDecodedBuffer': BUF}.get(member, member)
@@ -1038,17 +1063,7 @@ def check_scanner_reads(prog, rep, rule='R9.9'):
     for f in sorted(prog.funcs.values(), key=lambda g: g.id):
         if f.body is None or f.cls != NS + 'CCsvStreamReader':
             continue
-        ie = [g for g in prog.funcs.values() if g.q == NS + 'CCsvStreamReader::IsEnd' and g.body is not None]
-        CUR = BUF = None
-        if ie:
-            for x in ie[0].walk():
-                if x['k'] == 'BinaryOperator' and x.get('op') in ('>=', '=='):
-                    ms = [m.get('m') for m in ie[0].walk(x) if m['k'] == 'MemberExpr' and m.get('dk') == 'Field']
-                    if len(ms) >= 2:
-                        CUR, BUF = ms[0], ms[1]
-                        break
-        if CUR is None:
-            raise AnalysisBroken(rule + ': CCsvStreamReader::IsEnd() is no longer "cursor >= buffer.size() && decoder at end"')
+        CUR, BUF = stream_reader_roles(prog, rule)
         from bsv.expr import resolve
         for n in f.walk():
             if n['k'] not in ('CXXOperatorCallExpr', 'CXXMemberCallExpr'):
